@@ -17,8 +17,8 @@ import (
 	"runtime"
 	"sort"
 	"sync"
-	"syscall"
 	"sync/atomic"
+	"syscall"
 	"time"
 
 	"github.com/v-byte-cpu/sx/command"
@@ -379,15 +379,15 @@ func (c *countScanner) Scan(_ context.Context, r *scan.Request) (scan.Result, er
 }
 
 type wiredObs struct {
-	Class    string         `json:"class"`
-	Rate     string         `json:"rate"`
-	Workers  int            `json:"workers"`
-	Targets  []string       `json:"targets"`
-	Calls    map[string]int `json:"calls"`
-	Done     bool           `json:"done"`
-	Err      string         `json:"err"`
-	Ms       int64          `json:"ms"`
-	BoundMs  int64          `json:"bound_ms"`
+	Class   string         `json:"class"`
+	Rate    string         `json:"rate"`
+	Workers int            `json:"workers"`
+	Targets []string       `json:"targets"`
+	Calls   map[string]int `json:"calls"`
+	Done    bool           `json:"done"`
+	Err     string         `json:"err"`
+	Ms      int64          `json:"ms"`
+	BoundMs int64          `json:"bound_ms"`
 }
 
 // runWired: the engine exactly as the application-scan commands build it (parseRawOptions on the raw --rate
